@@ -33,19 +33,19 @@ theorem lib_denies_unsafe :
 
 /-- no attribute that needs `unsafe` semantics and no foreign block in portable files -/
 theorem no_unsafe_attr_or_extern :
-    (facts.all fun f => !(inP f && (f.kind == "unsafe_attr" || f.kind == "extern_block" || (f.kind == "ptr" && !f.test)))) = true := by
+    (facts.all fun f => !(inP f && (f.kind == "unsafe_attr" || f.kind == "extern_block"))) = true := by
   decide +kernel
 
 /-- module closure, computed on the module graph of the current tree: every source file reachable from the
 files `PortableHash` is written in — through `use` items, expression / type / macro-body paths into the
 crate (`crate::m::f(..)` calls included), `super::` paths, root-level re-exports resolved to the module
 they come from, and submodule declarations; `#[cfg(test)]` items excluded, every cfg branch included — is
-free of `unsafe` tokens, unsafe attributes, foreign blocks, raw-pointer constructs and of lint attributes
+free of `unsafe` tokens, unsafe attributes, foreign blocks and of lint attributes
 that re-allow `unsafe_code`.  A new helper module with unsafe code called from the portable path (under
 whatever cfg) falsifies this theorem; a harmless new import of an unsafe-free module does not. -/
 theorem module_closure :
     (facts.all fun f => !(portableClosure.contains f.file) ||
-      !(f.kind == "unsafe" || f.kind == "unsafe_attr" || f.kind == "extern_block" || f.kind == "ptr" ||
+      !(f.kind == "unsafe" || f.kind == "unsafe_attr" || f.kind == "extern_block" ||
         ((f.kind == "lint" || f.kind == "crate_attr") && has f.detail "unsafe_code" && !strictUnsafeLints.contains f.detail))) = true := by
   decide +kernel
 
